@@ -306,10 +306,13 @@ def validate_batched(ctx, area, module, trace_path, cfg=None, env=None, max_repo
     if cur:
         chunks.append(cur)
     counter = [0]
+    first_rej = [None]
 
     def search(sub):
         if len(rejected) >= max_reports:
             return
+        if first_rej[0] is not None and time.time() - first_rej[0] > 90:
+            return        # one confirmed rejection decides the check; do not spend minutes listing all of them
         counter[0] += 1
         r = run(sub, str(counter[0]))
         ctx.rep.events += 0
@@ -322,6 +325,8 @@ def validate_batched(ctx, area, module, trace_path, cfg=None, env=None, max_repo
                 evs = [json.loads(x) for x in sub[0][1]]
                 rejected.append(dict(x=sub[0][0], events=evs, prefix=r2.get("prefix"), total=r2.get("total"),
                                      tail=r2["out"][-1500:]))
+                if first_rej[0] is None:
+                    first_rej[0] = time.time()
             return
         # the prefix tells us which execution failed first
         pref = r.get("prefix")
